@@ -4,12 +4,24 @@ import json
 from pathlib import Path
 
 V = Path(__file__).resolve().parent.parent
+CORR = " Model tied to /repo on every run by executing the extracted OCaml model and the implementation (public API, synthesised programs) on the same generated inputs and comparing canonical outcomes; an independent specification-level reference decides violations."
 LEVEL = {
-    "C05": ("proof", "Coq theorem C05_parse_eval(+_named): every string of the stratified grammar is accepted by the model of expression_from_string, parsed to the grammar's postfix program and evaluates to the arithmetic value under every identifier-keyed scope (no bound on nesting or length); model tied to /repo by running the extracted model, the implementation (public front door: provider + one-axis annotation + expected= field) and an AST-level reference on the same generated strings and scopes.", "DESIGN.md 7 C05"),
+    "C01": ("proof", "Coq development on the model of DLTypeContext (binding-table soundness, props/C01.v) + correspondence on generated contexts (conforming / one fault / several / boundary corpus, exhaustive small scope in the thorough tier); an accepted context without a consistent assignment is the replay." + CORR, "DESIGN.md 7 C01"),
+    "C02": ("proof", "Coq development (props/C02.v) + correspondence on conforming contexts in every call style; observes call count, identity of the returned object and of the received arguments." + CORR, "DESIGN.md 7 C02"),
+    "C03": ("proof", "Coq theorems C03_check_iff / C03_error_factual / C03_no_other_exception for every annotation the model can construct and every shape (front/back alignment stated with rev, independent of the index arithmetic) + exhaustive small-scope correspondence through TensorTypeBase.check." + CORR, "DESIGN.md 7 C03"),
+    "C04": ("proof", "Finite theorem C04_tables (+ supersets, Int = Signed u Unsigned, same table on shared dtypes) re-proved on every run against DTYPES tuples reflected from the running code into coq/gen/GenDtypes.v; the model of `dtype in DTYPES` validated exhaustively against real check() for every class x library x dtype kind.", "DESIGN.md 7 C04"),
+    "C05": ("proof", "Coq theorem C05_parse_eval(+_named): every string of the stratified grammar is accepted by the model of expression_from_string, parsed to the grammar's postfix program and evaluates to the arithmetic value under every identifier-keyed scope (no bound on nesting or length)." + CORR, "DESIGN.md 7 C05"),
+    "C06": ("proof", "Coq development on the model parser (props/C06.v) + correspondence over a corpus of formerly accepted malformed strings, all strings over a 19-token alphabet up to a length bound, token mutations of valid strings and printable noise, against an independent recursive-descent recogniser of the documented grammar." + CORR, "DESIGN.md 7 C06"),
+    "C07": ("proof", "Model of the wrapper's phases (props/C07.v) + correspondence with a side-effect log in the wrapped body: one fault in a single argument position or only in the return value." + CORR, "DESIGN.md 7 C07"),
+    "C08": ("proof", "Model reports are structured values (props/C08.v); single-fault inputs compared field by field, multi-fault inputs for DLTypeError-ness and direct factuality; arithmetic exceptions from undefined expressions are the listed known finding K1." + CORR, "DESIGN.md 7 C08"),
+    "C10": ("proof", "Model of from_hint / DLTypeContext.add (props/C10.v) + correspondence on contexts rich in optional hints and None patterns; unions with non-None alternatives must be refused with TypeError at decoration." + CORR, "DESIGN.md 7 C10"),
+    "C11": ("proof", "Model of tuple flattening (props/C11.v) + correspondence on tuple hints of length 1-3 with plain positions, as parameter and return; reported element names compared." + CORR, "DESIGN.md 7 C11"),
+    "C14": ("proof", "Model of the four entry points (props/C14.v) + the same field list rendered as function, dataclass, NamedTuple and pydantic model with shuffled keyword order; the four outcomes must agree with each other and with the model." + CORR, "DESIGN.md 7 C14"),
+    "C15": ("proof", "Finite theorem over the regenerated tables (shared dtypes: library-independent) + every context executed under three library assignments (numpy / torch / mixed incl. jax)." + CORR, "DESIGN.md 7 C15"),
+    "C20": ("proof", "Finite theorem C20_config over coq/gen/GenConfig.v, regenerated on every run from fresh interpreters with a masking import hook (8 masks), against the hand model of the if/elif chains; plus one accepted / one rejected checked call per available library in each interpreter.", "DESIGN.md 7 C20"),
 }
-TECH = {
-    "C05": "Coq proof (induction on the grammar: lexer round trip, count check, shunting-yard invariant, postfix evaluation) + extracted-model/implementation correspondence",
-}
+TECH = {p: "Coq 8.16 proof about a hand-written executable model + extracted-model/implementation correspondence (differential execution)" for p in LEVEL}
+TECH["C04"] = TECH["C15"] = TECH["C20"] = "Coq 8.16 finite theorem (vm_compute) over tables regenerated from the running code + exhaustive correspondence"
 NOTE = "Trusted: Coq kernel; extraction (ExtrOcamlBasic/ExtrOcamlString) and ocaml/driver.ml; harness generators and canonicalisation; the hand-written model is tied to /repo only behaviourally (DESIGN.md 5, 9)."
 
 
